@@ -21,7 +21,7 @@ from dep_logic.markers import AnyMarker, EmptyMarker  # noqa: E402
 
 THEOREMS_BY_PROP = {
     "C11": ["DepLogic.C11.coherent_plain", "DepLogic.C11.coherent_clean", "DepLogic.C11.coherent_reversed",
-            "DepLogic.C11.reversed_canonical",
+            "DepLogic.C11.reversed_canonical", "DepLogic.C11.reversed_canonical_good",
             "DepLogic.C11.lexOne_of_clean", "DepLogic.M.fromSpecOk_of_lex", "DepLogic.M.pyMergeOk_of_fromSpec",
             "DepLogic.M.normGood_of_lex", "DepLogic.pyNorm_sem", "DepLogic.pad_one", "DepLogic.M.lexPrint_final",
             "DepLogic.M.lexNorm_final", "DepLogic.C02.bridge",
@@ -230,6 +230,25 @@ def run_c13(run: core.Run, n_markers: int) -> None:
                 run.fail(core.Failure(f"hash|{enc_spec(o)}|{enc_spec(p)}", f"{o!r} == {p!r} but their hashes differ", rep))
             if eq and len({o, p}) != 1:
                 run.fail(core.Failure(f"set|{enc_spec(o)}|{enc_spec(p)}", f"{o!r} == {p!r} but they are two set members", rep))
+    # objects at the ends of the order: spellings of the universal set, and ranges bounded by the least PEP 440 version
+    # (`>=0.dev0` admits everything but is not `is_any()`: known finding G1) -- `==` must still be an equivalence that
+    # agrees with `hash` on them (seed C13e: `is_any()` widened to `>=0.dev0` made it == AnySpecifier() with another hash)
+    ends = [AnySpecifier(), RangeSpecifier(), parse_version_specifier(""), ~EmptySpecifier(), parse_version_specifier(">=0.dev0"),
+            ~parse_version_specifier("<0.dev0"), parse_version_specifier(">=0.dev0") | parse_version_specifier("<1"),
+            parse_version_specifier(">0.dev0"), parse_version_specifier(">=0"), EmptySpecifier(), parse_version_specifier("<empty>"),
+            parse_version_specifier("<0.dev0"), ~AnySpecifier(), parse_version_specifier(">=1") & parse_version_specifier("<1")]
+    for o, p in itertools.product(ends, ends):
+        n_oracle += 1
+        eq = (o == p)
+        rep = {"op": "speceq", "a": enc_spec(o), "b": enc_spec(p)}
+        if eq != (p == o):
+            run.fail(core.Failure(f"sym|{enc_spec(o)}|{enc_spec(p)}", f"{o!r} == {p!r} is {eq} but the converse is {p == o}", rep))
+        if eq and (hash(o) != hash(p) or len({o, p}) != 1):
+            run.fail(core.Failure(f"hash|{enc_spec(o)}|{enc_spec(p)}", f"{o!r} == {p!r} but their hashes differ / two set members", rep))
+        for r in ends:
+            if eq and p == r and not (o == r):
+                run.fail(core.Failure(f"trans|{enc_spec(o)}|{enc_spec(p)}|{enc_spec(r)}", "equality is not transitive",
+                                      {"op": "spectrans", "a": enc_spec(o), "b": enc_spec(p), "c": enc_spec(r)}))
     # transitivity on triples + interchangeability as operands
     for (c, o), (d, p), (e_, r) in itertools.islice(itertools.product(objs, repeat=3), 0, None, 37):
         n_oracle += 1
@@ -464,7 +483,11 @@ def history(rng, length, all_twins=False):
     results = []
     # the same operation on equal-but-differently-built operands, back to back
     partners = ['python_version == "3.8"', 'python_version >= "3.8"', 'python_full_version >= "3.8.1"', 'python_version != "3.8"',
-                'python_version < "3.10"', 'python_full_version < "3.9.5"', 'os_name == "posix"', 'os_name == "java"']
+                'python_version < "3.10"', 'python_full_version < "3.9.5"', 'os_name == "posix"', 'os_name == "java"',
+                # same-variable partners for the string twins: the atom's specifier view is consulted only by a same-name merge
+                # or by a grouped atom's value filter (seed C10e: a module-level cache of parsed specifiers keyed without `reversed`)
+                'sys_platform == "linux"', 'sys_platform == "lin" or sys_platform == "linux2"',
+                'sys_platform != "lin" and sys_platform != "linux"', 'os_name != "nt" and os_name != "java"']
     if all_twins:
         for (a, b), part, kind in itertools.product(twins, partners, ("and", "or")):
             for x, y in ((a, b), (b, a)):
